@@ -110,7 +110,7 @@ DensePair(full, seed) ==
 DenseGroups(full, seed) ==
   LET pairs == IF full THEN DenseChoices \X DenseChoices ELSE DenseEdgeB \X DenseEdgeB
       P == SeedParams(seed + 1) IN
-  {Case("densegroups", <<1, 2>>, File(DefaultHeader,
+  {Case("densegroups", IF full THEN <<1>> ELSE <<1, 2>>, File(DefaultHeader,
         << Block(1, P, TRUE, (seed % 2 = 1), <<DenseG(1, 1, ab[1], T3), DenseG(1, 2, ab[2], <<0, 3>>)>>) >>)) : ab \in pairs}
 
 \* A and B on the same decoder of 2 resp. 3: filler blocks in between
